@@ -197,7 +197,8 @@ func (d *driver) behaviour(steps int, r int) {
 			if rng.Intn(4) == 0 {
 				loan = pos(loan / int64(2+rng.Intn(3)))
 			}
-			d.do("Borrow", M{"u": u, "lend": int64(l.ID), "pair": int64(pid), "ca": ca, "cin": cin, "la": int64(p.AssetOut), "loan": loan, "stable": rng.Intn(4) == 0})
+			d.do("Borrow", M{"u": u, "lend": int64(l.ID), "pair": int64(pid), "ca": ca, "cin": cin, "la": int64(p.AssetOut), "loan": loan, "stable": rng.Intn(4) == 0,
+				"mis": ca != int64(l.AssetID)}) // mis: the offered cToken is not the cToken of the named lend position's asset (input class)
 		case 5: // BorrowAlternate
 			pa := poolAssets[rng.Intn(len(poolAssets))]
 			ps := pairsOf(pa[1], pa[0])
